@@ -88,6 +88,8 @@ package verifspec
 // one directive is appended per comment and none when an error is reported.  Unsupported uses are therefore rejected.
 //@ func compiler/linkname.ParseGoLinknames#lit1
 //@ property C10
+// (lookupTopNode dereferences the names of the declarations it walks: on an AST with missing names it panics)
+//@   panics_only_if true
 //@   requires comment != nil && file != nil
 //@   ensures len(directives) == len(old(directives)) || len(directives) == len(old(directives)) + 1
 //@   ensures result != nil ==> len(directives) == len(old(directives))
